@@ -28,6 +28,7 @@
 import copy
 import logging
 import math
+from fractions import Fraction
 from math import ceil
 from typing import Optional, List, Dict, Union
 
@@ -361,6 +362,10 @@ class SccCaptionParagraph:
           if self.get_caption_style() is SccCaptionStyle.PaintOn:
             # Compute paragraph-relative begin time
             begin -= self._begin.to_temporal_offset()
+
+            if begin < 0:
+              # the text was already in memory when the caption was (re)displayed: it is shown from the start
+              begin = Fraction(0)
 
           span.set_begin(begin)
 
